@@ -356,7 +356,7 @@ func (e *Exec) checkFrame(st *State, fr *Frame, env *Env) {
 				e.emit(st, fmt.Sprintf("frame(%s)", key), "frame", nil, False, "")
 				continue
 			}
-			if allowedGhost[key] || strings.HasPrefix(key, "g_under_") {
+			if allowedGhost[key] || strings.HasPrefix(key, "g_under_") || strings.HasPrefix(key, "counter:") || strings.HasPrefix(key, "g_obs_") {
 				continue
 			}
 			if strings.Contains(key, ".result") && strings.Contains(key, "!c") {
